@@ -11,7 +11,8 @@ TOOLS=$(dirname $(find ~/.rustup/toolchains/nightly-x86_64-unknown-linux-gnu -na
 mkdir -p $COV/runner $COV/prof
 cp /verif/runner/Cargo.lock /verif/runner/Cargo.toml $COV/runner/
 rm -rf $COV/runner/src $COV/runner/.cargo $COV/prof/*; cp -r /verif/runner/src /verif/runner/.cargo $COV/runner/
-cd $COV/runner
+cd $COV/runner   # (cargo runs build scripts with the package directory as cwd: point their default profile output away from /repo)
+export LLVM_PROFILE_FILE=$COV/prof/build-%p-%m.profraw
 for cfg in checked release; do
   RUSTFLAGS="-C instrument-coverage" CARGO_NET_OFFLINE=true cargo +nightly build --offline --profile $cfg --features hooks --target-dir $COV/target 2>&1 | tail -1
 done
@@ -23,6 +24,7 @@ for id in $IDS; do
   VERIF_GRACEFUL_STOP=1 LLVM_PROFILE_FILE="$COV/prof/$id-%p-%8m.profraw" VERIF_RUNNER_DIR=$COV/runner VERIF_OUT_DIR=$COV/out \
     ./check $id --no-build --runs $RUNS 2>&1 | tail -1
 done
+rm -f $COV/prof/build-*.profraw
 $TOOLS/llvm-profdata merge -sparse $COV/prof/*.profraw -o $COV/merged.profdata
 $TOOLS/llvm-cov report -instr-profile=$COV/merged.profdata -object $COV/target/checked/runner -object $COV/target/release/runner \
    --ignore-filename-regex='(registry|rustc|runner/src)' > $COV/report.txt
